@@ -112,6 +112,8 @@ namespace vw
     using queen_nc_grid = fs::raster_grid<fs::xt_selector, fs::raster_connect::queen, fs::neighbors_no_cache<8>>;
     using rook_nc_grid = fs::raster_grid<fs::xt_selector, fs::raster_connect::rook, fs::neighbors_no_cache<4>>;
     using profile_grid = fs::profile_grid<>;
+    using bishop_nc_grid = fs::raster_grid<fs::xt_selector, fs::raster_connect::bishop, fs::neighbors_no_cache<4>>;
+    using profile_nc_grid = fs::profile_grid<fs::xt_selector, fs::neighbors_no_cache<2>>;
     using trimesh_grid = fs::trimesh;
 
     // ------------------------------------------------------------------ mesh generation
@@ -211,10 +213,10 @@ namespace vw
         }
     };
 
-    template <>
-    struct GridMaker<profile_grid>
+    template <class C>
+    struct GridMaker<fs::profile_grid<fs::xt_selector, C>>
     {
-        using G = profile_grid;
+        using G = fs::profile_grid<fs::xt_selector, C>;
         static std::unique_ptr<G> make(const GridSpec& g)
         {
             fs::profile_boundary_status bs(to_status(g.bs[0]), to_status(g.bs[1]));
@@ -276,7 +278,7 @@ namespace vw
     {
         auto prio = [](int s) { return s == 1 ? 3 : (s == 2 ? 2 : (s == 3 ? 1 : 0)); };
         std::vector<int> st(g.size(), 0);
-        if (g.kind == G_PROFILE)
+        if (grid_is_profile(g.kind))
         {
             st[0] = g.bs[0];
             st[g.cols - 1] = g.bs[1];
@@ -314,7 +316,7 @@ namespace vw
     inline std::vector<MNeighbor> model_neighbors(const GridSpec& g, const std::vector<int>& st, std::size_t idx)
     {
         std::vector<MNeighbor> out;
-        if (g.kind == G_PROFILE)
+        if (grid_is_profile(g.kind))
         {
             const bool looped = g.bs[0] == 3 && g.bs[1] == 3;
             const long n = static_cast<long>(g.cols);
@@ -336,7 +338,7 @@ namespace vw
         const long R = static_cast<long>(g.rows), C = static_cast<long>(g.cols);
         const long r = static_cast<long>(idx) / C, c = static_cast<long>(idx) % C;
         const bool rook = g.kind == G_RASTER_ROOK || g.kind == G_RASTER_ROOK_NC;
-        const bool bishop = g.kind == G_RASTER_BISHOP;
+        const bool bishop = g.kind == G_RASTER_BISHOP || g.kind == G_RASTER_BISHOP_NC;
         for (long dr = -1; dr <= 1; ++dr)
             for (long dc = -1; dc <= 1; ++dc)
             {
